@@ -249,7 +249,7 @@ func checkC09(c *ev.Ctx) {
 			c.Violation("C09:harness:fixture", "near-miss fixture "+n+" decodes as a YSSHCA KeyID", nil)
 		}
 	}
-	c.Rule("E1 BFS, two real shims (no-upstream on/off) driven in lock-step over identical underlying agents: Add(15: YSSHCA KeyIDs of every type, one surrounded by JSON whitespace (two more such certificates enter behind the shim's back and as initial content), near misses (three different missing fields, version 2, inconsistent), free text, empty, plain key), AddHardCert(3, one equal to an underlying YSSHCA certificate), Remove(4), RemoveAll, List, Signers, Sign(7), certificates added behind the shim's back; roots = all 16 subsets of a 4-identity generating set as initial contents, plus 2 whose underlying agent starts with expired certificates in front of plain keys and YSSHCA certificates, plus 8 used servers (a pre-history of add + listing applied after construction); oracle: absolute multiset formulas against ground truth and the reflected memory table in both modes. non-trivial = listing with >=1 hidden certificate, or sign/remove naming a hidden certificate; distinct by (operation, underlying set, memory set)")
+	c.Rule("E1 BFS, two real shims (no-upstream on/off) driven in lock-step over identical underlying agents: Add(15: YSSHCA KeyIDs of every type, one surrounded by JSON whitespace (two more such certificates enter behind the shim's back and as initial content), near misses (three different missing fields, version 2, inconsistent), free text, empty, plain key), AddHardCert(3, one equal to an underlying YSSHCA certificate), Remove(4), RemoveAll, List, Signers, Sign(7), certificates added behind the shim's back; roots = all 16 subsets of a 4-identity generating set as initial contents, plus 2 whose underlying agent starts with expired certificates in front of plain keys and YSSHCA certificates, plus 2 with YSSHCA certificates over a DSA key / a software security key, plus 8 used servers (a pre-history of add + listing applied after construction); oracle: absolute multiset formulas against ground truth and the reflected memory table in both modes. non-trivial = listing with >=1 hidden certificate, or sign/remove naming a hidden certificate; distinct by (operation, underlying set, memory set)")
 	c.Assume("Y(x) is the property's own definition: keyid.Unmarshal accepts x.KeyId (evaluated once per fixture)", "both worlds are built from the same fixtures")
 	gen := []string{"K1", "y.touch", "n.missing", "y.inagent"}
 	var roots []string
@@ -267,6 +267,8 @@ func checkC09(c *ev.Ctx) {
 	// an expired certificate in front of a plain key and a YSSHCA certificate: the first listing prunes it, and what is
 	// hidden must not depend on the positions the pruning leaves behind
 	roots = append(roots, "both:c.past,K1,y.touch", "both:c.past,K2,y.inagent,c2.past,K1")
+	// YSSHCA certificates over a DSA key and over a security key (other certificate algorithm names), from the start
+	roots = append(roots, "both:a.dsa.key,y.dsa,K1", "both:y.sk.key,y.sk")
 	for _, init := range []string{"", "K1"} {
 		for _, pre := range []string{"Add y.touch;List", "Add y.touch;Signers", "Add y.inagent;List", "Add n.free;List;Add y.nonce;Signers"} {
 			roots = append(roots, "both:"+init+"|"+pre)
